@@ -27,7 +27,7 @@ REAL = ["bec2format.bf3file / bec2file / crypto registry", "register_crypto_plug
         "when the fault arm is active)"]
 STUBS = ["medium: SimFS", "RNG: SimRng", "cipher fault wrapper FaultyAES / abstract base class for 'missing'",
          "RefAES, RefDir (independent models)"]
-PROBES = ["runs-with-assertions-disabled", "marked-component-without-enc-tag", "plain-configuration-replaced-by-set_config", "sibling-package-made-plain", "concurrent-writers-same-key", "rewritten-under-second-key", "content-longer-than-4096", "content-multiple-of-16", "content-trailing-zero", "content-all-zero", "cipher-missing", "cipher-raised-at-k",
+PROBES = ["runs-with-assertions-disabled", "retry-after-cipher-failure", "marked-component-without-enc-tag", "plain-configuration-replaced-by-set_config", "sibling-package-made-plain", "concurrent-writers-same-key", "rewritten-under-second-key", "content-longer-than-4096", "content-multiple-of-16", "content-trailing-zero", "content-all-zero", "cipher-missing", "cipher-raised-at-k",
           "write-failed-no-file", "write-failed-file-exists", "rewrite-same-ciphertext", "bec2-framing", "config-component",
           "secrecy-needles-checked"]
 ASSUMPTIONS = ["encrypted content is defined up to its declared length; the reader returns the zero-padded plaintext"]
@@ -232,9 +232,10 @@ def run(case):
             sc.description[0xC2] = b"\x00"
             out.probes["sibling-package-made-plain"] += 1
         before = dict(fs.files)
+        pkg = G.build_bf3(case["obj"], env)
         try:
             # encryptors of auth blocks capture the cipher at construction: build inside
-            w = files.write_file(case, fs, env, name)
+            w = files.write_file(case, fs, env, name, prebuilt=pkg)
             wrote = True
         except SimCrash:
             raise
@@ -270,7 +271,18 @@ def run(case):
                                      "encrypted component")
                 else:
                     out.probes["write-failed-no-file"] += 1
-                return out
+                # the cipher works again (plug-in registered / transient error over): the caller writes the SAME
+                # package object once more - what gets stored must be ciphertext as if nothing had happened
+                env.restore_registry()
+                env.use_fs(fs)
+                try:
+                    w = files.write_file(case, fs, env, name, prebuilt=pkg)
+                except Exception as e:
+                    out.fail("C06.retry-raises", exc_site(e), "retry of the same object after the cipher failure raised "
+                             "%s: %s" % (type(e).__name__, e))
+                    return out
+                out.probes["retry-after-cipher-failure"] += 1
+                mode = "real"
             if not fired:
                 out.ev("fault-not-reached")
         elif not wrote:
